@@ -648,6 +648,7 @@ FAULTS = [
     ("tiebroken_ranking does not record", [(UT, "            tied_dict[s] = tiebroken\n", "")], "C10.R4"),
 ]
 BENIGN = [
+    ("selector start values in one assignment", [(UT, "    num_elected = 0\n    elected = []\n    i = 0\n", "    num_elected, elected, i = 0, [], 0\n")]),
     ("tie test flipped", [(STV, "            if len(lowest_fpv_cands) > 1:\n                tiebroken_ranking = tiebreak_set(", "            if 1 < len(lowest_fpv_cands):\n                tiebroken_ranking = tiebreak_set(")]),
 ]
 
